@@ -6,7 +6,9 @@ package main
 import (
 	"fmt"
 	"go/ast"
+	"go/token"
 	"go/types"
+	"sort"
 	"strings"
 
 	"golang.org/x/tools/go/ssa"
@@ -209,6 +211,153 @@ func (tb *Table) define() {
 	}
 }
 
+// rowRef: the array holding the i-th nested literal of the table. Rows are
+// ordinary objects allocated before the function under verification starts
+// (see tableRefFacts); their content is fixed by heapInv in every heap state.
+// This is justified by the immutability scan (tableWriters): rows never escape.
+func (tb *Table) rowRef(i int) *Term {
+	return Var(fmt.Sprintf("tblrow.%s.%d", tb.Name, i), SInt)
+}
+
+// subSlice: the slice value stored under key k of a nested table (nil slice when absent)
+func (tb *Table) subSlice(k *Term) *Term {
+	r := NilSlice
+	for i := len(tb.Entries) - 1; i >= 0; i-- {
+		e := tb.Entries[i]
+		key := e.K
+		if !tb.IsMap {
+			key = IntLit(int64(i))
+		}
+		n := IntLit(int64(len(e.Sub)))
+		r = Ite(Eq(k, key), SliceMk(tb.rowRef(i), IntLit(0), n, n), r)
+	}
+	return r
+}
+
+func (tb *Table) nested() bool {
+	for _, e := range tb.Entries {
+		if e.Sub != nil {
+			return true
+		}
+	}
+	return false
+}
+
+func (tb *Table) elemType() types.Type {
+	switch u := tb.Typ.Underlying().(type) {
+	case *types.Map:
+		return u.Elem()
+	case *types.Slice:
+		return u.Elem()
+	}
+	return nil
+}
+
+// tableHeapFacts: what every heap state says about the tables (called from heapInv
+// for every heap-array constant h named `name` that occurs in a query):
+//   - the element memory of a nested table's rows holds the literal values;
+//   - the map object of a scalar map table holds exactly the literal entries, so a
+//     table reached through a variable (a parameter, a function result) reads the
+//     same as the table named directly.
+func (p *Program) tableHeapFacts(used []*Table, name string, h *Term) *Term {
+	var out []*Term
+	for _, tb := range used {
+		et := tb.elemType()
+		if et == nil {
+			continue
+		}
+		if tb.nested() {
+			st, ok := et.Underlying().(*types.Slice)
+			if !ok || sortOf(st.Elem()) == nil || elemHeapName(st.Elem()) != name {
+				continue
+			}
+			for i, e := range tb.Entries {
+				for j, v := range e.Sub {
+					out = append(out, Eq(Select(Select(h, tb.rowRef(i)), IntLit(int64(j))), v))
+				}
+			}
+			continue
+		}
+		mt, ok := tb.Typ.Underlying().(*types.Map)
+		if !ok || sortOf(mt.Elem()) == nil || sortOf(mt.Key()) == nil {
+			continue
+		}
+		d, v, l := mapHeapNames(mt)
+		k := BVar("tk", sortOf(mt.Key()))
+		switch name {
+		case d:
+			out = append(out, Forall([]*Term{k}, Eq(Select(Select(h, tb.Ref), k), tb.domTerm(k)), []*Term{Select(Select(h, tb.Ref), k)}))
+		case v:
+			out = append(out, Forall([]*Term{k}, Eq(Select(Select(h, tb.Ref), k), tb.valTerm(k)), []*Term{Select(Select(h, tb.Ref), k)}))
+		case l:
+			out = append(out, Eq(Select(h, tb.Ref), IntLit(int64(len(tb.Entries)))))
+		}
+	}
+	return And(out...)
+}
+
+// tablesReferenced: the tables whose map object or rows occur in ts as values
+func (p *Program) tablesReferenced(ts []*Term) []*Table {
+	seen := map[*Term]bool{}
+	names := map[string]bool{}
+	for _, t := range ts {
+		collect(t, seen, func(x *Term) {
+			if x.Op != "var" || x.Sort != SInt {
+				return
+			}
+			if strings.HasPrefix(x.Name, "tblrow.") {
+				n := x.Name[len("tblrow."):]
+				if i := strings.LastIndex(n, "."); i > 0 {
+					names[n[:i]] = true
+				}
+			} else if strings.HasPrefix(x.Name, "tbl.") {
+				names[x.Name[len("tbl."):]] = true
+			}
+		})
+	}
+	var keys []string
+	for k, tb := range p.tables {
+		if names[tb.Name] {
+			keys = append(keys, k)
+		}
+	}
+	sort.Strings(keys)
+	var out []*Table
+	for _, k := range keys {
+		out = append(out, p.tables[k])
+	}
+	return out
+}
+
+// tableRefFacts: table objects (map objects, rows of nested tables) occurring in
+// ts are distinct non-nil objects allocated before the function starts.
+func (p *Program) tableRefFacts(ts []*Term) []*Term {
+	seen := map[*Term]bool{}
+	var refs []*Term
+	for _, t := range ts {
+		collect(t, seen, func(x *Term) {
+			if x.Op == "var" && x.Sort == SInt && (strings.HasPrefix(x.Name, "tbl.") || strings.HasPrefix(x.Name, "tblrow.")) {
+				refs = append(refs, x)
+			}
+		})
+	}
+	if len(refs) == 0 {
+		return nil
+	}
+	sort.Slice(refs, func(i, j int) bool { return refs[i].Name < refs[j].Name })
+	a0 := Var("alloc@0", SInt)
+	var out []*Term
+	for _, r := range refs {
+		out = append(out, And(Lt(IntLit(0), r), Le(r, a0)))
+	}
+	for i := range refs {
+		for j := i + 1; j < len(refs); j++ {
+			out = append(out, Neq(refs[i], refs[j]))
+		}
+	}
+	return out
+}
+
 // subLen / subAt for nested tables (map[K][]V or [][]V)
 func (tb *Table) subLen(k *Term) *Term {
 	r := IntLit(0)
@@ -273,6 +422,197 @@ func (p *Program) tableWriters(tb *Table) []string {
 							bad = append(bad, p.pos(x.Pos())+" delete/clear")
 						}
 					}
+				}
+			}
+		}
+	}
+	return bad
+}
+
+// tableAliasWriters: further conditions under which a table may be read as a
+// constant when it is reached as an object rather than by name.
+//  - scalar map table: the map object may flow anywhere (parameters, results), so
+//    no instruction of the repository may update or delete from a map of the
+//    table's type, except a map made by make() in the same function;
+//  - nested table: the rows handed out by a lookup stay local to the function
+//    that looked them up and are only read (len, cap, element read, local variable).
+func (p *Program) tableAliasWriters(tb *Table) []string {
+	var bad []string
+	if tb.Global == nil {
+		return nil
+	}
+	madeHere := func(f *ssa.Function, v ssa.Value) bool {
+		if _, ok := v.(*ssa.MakeMap); ok {
+			return true
+		}
+		u, ok := v.(*ssa.UnOp)
+		if !ok {
+			return false
+		}
+		a, ok := u.X.(*ssa.Alloc)
+		if !ok {
+			return false
+		}
+		n := 0
+		for _, b := range f.Blocks {
+			for _, ins := range b.Instrs {
+				if st, ok := ins.(*ssa.Store); ok && st.Addr == ssa.Value(a) {
+					if _, ok := st.Val.(*ssa.MakeMap); !ok {
+						return false
+					}
+					n++
+				}
+			}
+		}
+		return n > 0
+	}
+	var keys []string
+	for k := range p.funcs {
+		keys = append(keys, k)
+	}
+	sort.Strings(keys)
+	for _, key := range keys {
+		f := p.funcs[key]
+		if f.Name() == "init" && f.Pkg == tb.Global.Pkg {
+			continue
+		}
+		if !tb.nested() {
+			for _, b := range f.Blocks {
+				for _, ins := range b.Instrs {
+					switch x := ins.(type) {
+					case *ssa.MapUpdate:
+						if types.Identical(x.Map.Type().Underlying(), tb.Typ.Underlying()) && !madeHere(f, x.Map) {
+							bad = append(bad, p.pos(x.Pos())+" update of a map of the table's type")
+						}
+					case *ssa.Call:
+						if bi, ok := x.Call.Value.(*ssa.Builtin); ok && (bi.Name() == "delete" || bi.Name() == "clear") && len(x.Call.Args) > 0 {
+							if types.Identical(x.Call.Args[0].Type().Underlying(), tb.Typ.Underlying()) && !madeHere(f, x.Call.Args[0]) {
+								bad = append(bad, p.pos(x.Pos())+" delete/clear on a map of the table's type")
+							}
+						}
+					}
+				}
+			}
+			continue
+		}
+		// nested table: taint the table value and the rows
+		tbl := map[ssa.Value]bool{}
+		row := map[ssa.Value]bool{}
+		for changed := true; changed; {
+			changed = false
+			mark := func(m map[ssa.Value]bool, v ssa.Value) {
+				if !m[v] {
+					m[v] = true
+					changed = true
+				}
+			}
+			for _, b := range f.Blocks {
+				for _, ins := range b.Instrs {
+					switch x := ins.(type) {
+					case *ssa.UnOp:
+						if x.Op == token.MUL {
+							if x.X == ssa.Value(tb.Global) || tbl[x.X] {
+								mark(tbl, x)
+							}
+							if row[x.X] {
+								mark(row, x)
+							}
+						}
+					case *ssa.Store:
+						if a, ok := x.Addr.(*ssa.Alloc); ok {
+							if tbl[x.Val] {
+								mark(tbl, a)
+							}
+							if row[x.Val] {
+								mark(row, a)
+							}
+						}
+					case *ssa.Lookup:
+						if tbl[x.X] {
+							mark(row, x)
+						}
+					case *ssa.Range:
+						if tbl[x.X] {
+							mark(tbl, x)
+						}
+					case *ssa.Next:
+						if tbl[x.Iter] {
+							mark(row, x)
+						}
+					case *ssa.Extract:
+						// value component of a comma-ok lookup / of a map iteration step
+						_, isNext := x.Tuple.(*ssa.Next)
+						if row[x.Tuple] && ((isNext && x.Index == 2) || (!isNext && x.Index == 0)) {
+							mark(row, x)
+						}
+					case *ssa.Phi:
+						for _, e := range x.Edges {
+							if row[e] {
+								mark(row, x)
+							}
+							if tbl[e] {
+								mark(tbl, x)
+							}
+						}
+					case *ssa.ChangeType:
+						if row[x.X] {
+							mark(row, x)
+						}
+						if tbl[x.X] {
+							mark(tbl, x)
+						}
+					}
+				}
+			}
+		}
+		if len(tbl) == 0 {
+			continue
+		}
+		for _, b := range f.Blocks {
+			for _, ins := range b.Instrs {
+				ok := true
+				switch x := ins.(type) {
+				case *ssa.DebugRef, *ssa.Extract, *ssa.Phi, *ssa.ChangeType, *ssa.Lookup, *ssa.Range, *ssa.Next:
+					// propagation handled above; a lookup with a tainted key is harmless
+				case *ssa.UnOp:
+					ok = x.Op == token.MUL || !(row[x.X] || tbl[x.X])
+				case *ssa.Store:
+					if row[x.Val] || tbl[x.Val] {
+						_, ok = x.Addr.(*ssa.Alloc)
+					}
+					if ia, isIA := x.Addr.(*ssa.IndexAddr); isIA && (row[ia.X] || tbl[ia.X]) {
+						ok = false
+					}
+				case *ssa.IndexAddr:
+					// address of a row element: only loads may use it
+					if row[x.X] {
+						for _, r := range *x.Referrers() {
+							if u, isU := r.(*ssa.UnOp); !(isU && u.Op == token.MUL) {
+								if _, isD := r.(*ssa.DebugRef); !isD {
+									ok = false
+								}
+							}
+						}
+					}
+				case *ssa.Call:
+					for _, a := range x.Call.Args {
+						if row[a] || tbl[a] {
+							bi, isB := x.Call.Value.(*ssa.Builtin)
+							if !(isB && (bi.Name() == "len" || bi.Name() == "cap")) {
+								ok = false
+							}
+						}
+					}
+				default:
+					var ops []*ssa.Value
+					for _, o := range ins.Operands(ops) {
+						if o != nil && *o != nil && (row[*o] || tbl[*o]) {
+							ok = false
+						}
+					}
+				}
+				if !ok {
+					bad = append(bad, p.pos(ins.Pos())+" table or table row may escape or be written: "+ins.String())
 				}
 			}
 		}
